@@ -1,1 +1,19 @@
-fn main(){println!("vh_els");}
+//! vh_els: drives the real language server (els::Server through molc's FakeClient) in-process.
+//!   docsync  (C28): open + incremental change notifications; VFS.read compared with the client's copy
+mod docsync;
+mod util;
+
+fn main() {
+    let args: Vec<String> = std::env::args().collect();
+    let sub = args.get(1).map(|s| s.as_str()).unwrap_or("");
+    let rest: Vec<String> = args.iter().skip(2).cloned().collect();
+    util::install_quiet_panic_hook();
+    let code = match sub {
+        "docsync" => docsync::run(&rest),
+        _ => {
+            eprintln!("unknown sub-command {sub:?}");
+            2
+        }
+    };
+    std::process::exit(code);
+}
